@@ -287,6 +287,7 @@ def run(ses, rep):
         flagged.append(("format_file/no-write-site", "format_file contains no file write", "unformatted-or-broken"))
     flagged += lib_verification(ses, rep)
     flagged += terminators(ses, rep, funcs)
+    flagged += early_returns(ses, rep, funcs)
     # "the exit status is 2": one step of the output thread for a failing file, from any status (shared with C13)
     from . import c13
     st_flags = [f for f in c13.status_step(ses, rep, funcs) if "/Err/" in f[0]]
@@ -304,6 +305,61 @@ WRITE_STATUS = {
                                            "other file not formatted" if r["after"]["a.lua"][0].decode() != clireplay.FORMATTED else None)),
 }
 CRASH = "local   y   =   0xffffffffffffffff\n"      # AstVerifier panics on a hex literal wider than i64 under --verify (pinned tree)
+
+
+# `?` sites of format(): where one entry's failure ends the whole run. The pinned tree has exactly these sources (set-up errors and
+# configuration / ignore-file errors, which are fatal by design); any other source means a single path can stop the others.
+EARLY_RETURN_SOURCES = ("ConfigResolver::new", "current_dir", "OverrideBuilder::add", "OverrideBuilder::build", "path_is_stylua_ignored",
+                        "load_configuration_for_stdin", "load_configuration", "Builder::build", "ThreadPoolBuilder::build")
+
+
+def early_returns(ses, rep, funcs):
+    bad = []
+    cands = [f for f in funcs.get("format", []) if f.kind == "fn"]
+    if len(cands) != 1:
+        raise Inconclusive("format(): not found")
+    fn = cands[0]
+    defs = {}
+    for bb, sts in fn.blocks.items():
+        for s_ in sts:
+            if s_[0] == "call" and s_[1] is not None and not s_[1].proj:
+                defs[s_[1].local] = ("call", canon(s_[2]), s_[3])
+            elif s_[0] == "assign" and not s_[1].proj:
+                defs[s_[1].local] = ("assign", s_[2])
+    n = 0
+    for bb, sts in fn.blocks.items():
+        for s_ in sts:
+            if s_[0] == "call" and canon(s_[2]).endswith("Try>::branch"):
+                n += 1
+                # walk back through wrappers (context / with_context / map_err / moves) to the call that produced the Result
+                op, src, steps = s_[3][0], None, 0
+                while steps < 8:
+                    steps += 1
+                    loc = op[1].local if isinstance(op, tuple) and len(op) > 1 and hasattr(op[1], "local") else None
+                    d_ = defs.get(loc)
+                    if d_ is None:
+                        break
+                    if d_[0] == "call":
+                        last = d_[1].split("::")[-1]
+                        if last in ("context", "with_context", "map_err", "map", "into_result") and d_[2]:
+                            op = d_[2][0]
+                            continue
+                        src = d_[1]
+                        break
+                    rv = d_[1]
+                    if isinstance(rv, tuple) and rv[0] == "use":
+                        op = rv[1]
+                        continue
+                    break
+                ok = src is not None and any(src.endswith(a) for a in EARLY_RETURN_SOURCES)
+                r, m = ses.obligation(f"early-return/format/{bb}/{(src or '?').split('::')[-1]}", [], z3.BoolVal(not ok),
+                                      "format() gives up early only for set-up, configuration and ignore-file errors")
+                if r == "sat":
+                    bad.append((f"early-return/format/{bb}", f"format() returns early when {src or 'an unknown call'} fails: one entry can stop the others", "early-return"))
+    rep.bounds["format_try_sites"] = n
+    if n < 4:
+        raise Inconclusive(f"format(): only {n} `?` sites recognised")
+    return bad
 
 
 def terminators(ses, rep, funcs):
@@ -335,7 +391,21 @@ SCENARIOS_EXTRA = {
                   "crashing file was modified" if clireplay.changed(r, "m.lua", True) else
                   "exit status is %d, not 2" % r["rc"] if r["rc"] != 2 else None)),
 }
+SCENARIOS_EXTRA["dangling-symlink"] = (
+    {"d1/a.lua": clireplay.UNFORMATTED, "d2/bad.lua": clireplay.BROKEN, "d2/stale.lua": ("symlink", "does-not-exist.lua"), "d3/c.lua": clireplay.UNFORMATTED,
+     "d3/e.lua": clireplay.UNFORMATTED}, ["--num-threads", "1", "d1", "d2", "d3"],
+    lambda r: ("an entry that cannot be resolved left other files unformatted" if any(
+        r["after"][k][0].decode() != clireplay.FORMATTED for k in ("d1/a.lua", "d3/c.lua", "d3/e.lua")) else
+        "unparseable file modified" if clireplay.changed(r, "d2/bad.lua", True) else None))
+SCENARIOS_EXTRA["latin1"] = (
+    {"a.lua": clireplay.UNFORMATTED, "legacy.lua": b"-- caf\xe9\nlocal   s   =   \"na\xefve\"\n"}, ["a.lua", "legacy.lua"],
+    lambda r: ("a file that is not valid UTF-8 was rewritten" if clireplay.changed(r, "legacy.lua", True) else
+               "exit status is %d, not 2, although a file could not be read" % r["rc"] if r["rc"] != 2 else
+               "other file not formatted" if r["after"]["a.lua"][0].decode() != clireplay.FORMATTED else None))
 SCENARIOS.update(SCENARIOS_EXTRA)
+KIND2SCEN["early-return"] = ["dangling-symlink", "dir", "broken"]
+for _k in ("unformatted-or-broken", "others", "any", "broken", "formatted"):
+    KIND2SCEN[_k] = KIND2SCEN[_k] + ["latin1"]
 KIND2SCEN["crash"] = ["crash"]
 KIND2SCEN["any"] = KIND2SCEN["any"] + ["crash"]
 
